@@ -19,7 +19,17 @@ or one operator expression on I/O systems (`NonlinearIOSystem.__add__`, … , `f
 
 (every inner node is evaluated to its linear system, which is the subsystem of the node above).
 
-Answer: `ok <nin> <nout> cm MAT im MAT om MAT (lin <n> A B C D | nl)` or `err <Err>`.
+Either form may be followed by evaluation requests (the interconnected system used: its `_rhs` /
+`_out` at given points, a discrete-time simulation):
+
+  EVAL   := ev <k> ( POOL POOL )^k        -- k points: state values, external input values
+          | tr <N> POOL ( POOL )^N        -- initial state, then the input sample of each step
+  POOL   := <count> <rat>*                -- entry i of the vector = i-th value (0 beyond the end)
+
+Answer: `ok <nin> <nout> cm MAT im MAT om MAT (lin <n> A B C D | nl)` or `err <Err>`; for each
+request ` ev RHS OUT` (`n x k` and `nout x k`, one column per point) / ` tr XS YS` (`n x N`,
+`nout x N`) or ` ev err <Err>` / ` tr err <Err>`.  The evaluations run `Wiring.eval`'s loop
+(`evalBatch`, in the tabulated form) and `IC.dtTraj`.
 The maps come from `IC.interconnect`; the linear part runs `IC.staticLoop` on the batch of unit
 perturbations with `Wiring.stepN` (= `Wiring.step`, tabulated between cycles) and reads A, B, C, D off
 `Wiring.rhs` / `Wiring.out`.
@@ -162,8 +172,9 @@ def colsR {r a b : Nat} (M : Matrix (Fin r) (Fin (a + b)) Q) : Matrix (Fin r) (F
 
 /-- the linear interconnection: batch of unit perturbations of the `N` states and `nin`
 external inputs, propagation loop, then `_rhs` / `_out`. -/
-def linearSys (nsys : Nat) (m : Maps Q) (G : DSS Q) : Except String (Except Err (DSS Q)) :=
-  if h : G.m = m.nu ∧ G.p = m.ny then
+def evalBatch (nsys : Nat) (m : Maps Q) (G : DSS Q) (h : G.m = m.nu ∧ G.p = m.ny) (k : Nat)
+    (Xs : Matrix (Fin G.n) (Fin k) Q) (Ws : Matrix (Fin m.nin) (Fin k) Q) :
+    Except Err (Matrix (Fin G.n) (Fin k) Q × Matrix (Fin m.nout) (Fin k) Q) :=
     let g : SS (Fin G.n) (Fin m.nu) (Fin m.ny) Q := G.sys.castIO h.2 h.1
     let kc := tabulate (toMat m.nu m.ny m.connect)
     let im := tabulate (toMat m.nu m.nin m.inp)
@@ -173,29 +184,87 @@ def linearSys (nsys : Nat) (m : Maps Q) (G : DSS Q) : Except String (Except Err 
     let ou := tabulate (colsR omM)
     let W : Wiring (Fin m.nu) (Fin m.ny) (Fin m.nin) (Fin m.nout) Q :=
       ⟨ofTable kc, ofTable im, ofTable oy, ofTable ou⟩
+    let u0 := tabulate (W.M * Ws)
+    let nn := tabulate (W.Kc * g.D)
+    let cx := tabulate (g.C * Xs)
+    let rr := tabulate (W.Kc * (ofTable cx : Matrix (Fin m.ny) (Fin k) Q)
+      + (ofTable u0 : Matrix (Fin m.nu) (Fin k) Q))
+    let step : Array Q → Array Q := fun t =>
+      tabulate (Wiring.stepN (ofTable nn : Matrix (Fin m.nu) (Fin m.nu) Q)
+        (ofTable rr : Matrix (Fin m.nu) (Fin k) Q)
+        (ofTable t : Matrix (Fin m.nu) (Fin k) Q))
+    match staticLoop step (nsys + 1) u0 with
+    | .error e => .error e
+    | .ok u =>
+      let U : Matrix (Fin m.nu) (Fin k) Q := ofTable u
+      let ab := tabulate (Wiring.rhs g Xs U)
+      let cd := tabulate (W.out g Xs U)
+      .ok (ofTable ab, ofTable cd)
+
+def linearSys (nsys : Nat) (m : Maps Q) (G : DSS Q) : Except String (Except Err (DSS Q)) :=
+  if h : G.m = m.nu ∧ G.p = m.ny then
     let Xs : Matrix (Fin G.n) (Fin (G.n + m.nin)) Q :=
       fun i j => if j.val = i.val then 1 else 0
     let Ws : Matrix (Fin m.nin) (Fin (G.n + m.nin)) Q :=
       fun i j => if j.val = G.n + i.val then 1 else 0
-    let u0 := tabulate (W.M * Ws)
-    let nn := tabulate (W.Kc * g.D)
-    let cx := tabulate (g.C * Xs)
-    let rr := tabulate (W.Kc * (ofTable cx : Matrix (Fin m.ny) (Fin (G.n + m.nin)) Q)
-      + (ofTable u0 : Matrix (Fin m.nu) (Fin (G.n + m.nin)) Q))
-    let step : Array Q → Array Q := fun t =>
-      tabulate (Wiring.stepN (ofTable nn : Matrix (Fin m.nu) (Fin m.nu) Q)
-        (ofTable rr : Matrix (Fin m.nu) (Fin (G.n + m.nin)) Q)
-        (ofTable t : Matrix (Fin m.nu) (Fin (G.n + m.nin)) Q))
-    match staticLoop step (nsys + 1) u0 with
+    match evalBatch nsys m G h (G.n + m.nin) Xs Ws with
     | .error e => .ok (.error e)
-    | .ok u =>
-      let U : Matrix (Fin m.nu) (Fin (G.n + m.nin)) Q := ofTable u
-      let ab := tabulate (Wiring.rhs g Xs U)
-      let cd := tabulate (W.out g Xs U)
-      let AB : Matrix (Fin G.n) (Fin (G.n + m.nin)) Q := ofTable ab
-      let CD : Matrix (Fin m.nout) (Fin (G.n + m.nin)) Q := ofTable cd
+    | .ok (AB, CD) =>
       .ok (.ok (SS.force ⟨G.n, m.nout, m.nin, ⟨colsL AB, colsR AB, colsL CD, colsR CD⟩, .cont⟩))
   else .error "stack-shape"
+
+/-! evaluation requests -/
+
+/-- the call raised: there is no system to evaluate, the requests are not read. -/
+def dropRequests : P Unit := set ([] : List String)
+
+def pPool : P (Array Q) := do pure (← pList pRat).toArray
+
+/-- column `j` of the batch = the first `n` values of pool `j` (0 beyond its end). -/
+def poolMat (n : Nat) (pools : Array (Array Q)) : Matrix (Fin n) (Fin pools.size) Q :=
+  fun i j => (pools.getD j.val #[]).getD i.val 0
+
+def evalRequests (nsys : Nat) (m : Maps Q) (G : DSS Q) : P String := do
+  if h : G.m = m.nu ∧ G.p = m.ny then
+    let mut out := ""
+    while !(← atEnd) do
+      let t ← tok
+      match t with
+      | "ev" =>
+        let pts ← pList (do
+          let x ← pPool
+          let w ← pPool
+          pure (x, w))
+        let xs := (pts.map (·.1)).toArray
+        let ws := (pts.map (·.2)).toArray
+        if hk : ws.size = xs.size then
+          let xt := tabulate (poolMat G.n xs)
+          let wt := tabulate (poolMat m.nin ws)
+          match evalBatch nsys m G h xs.size (ofTable xt) (ofTable wt) with
+          | .error e => out := out ++ " ev " ++ showErr e
+          | .ok (F, H) => out := out ++ " ev " ++ showMat F ++ " " ++ showMat H
+        else throw "ev-sizes"
+      | "tr" =>
+        let N ← pNat
+        let x0 ← pPool
+        let ws ← pArray N pPool
+        let f : Array Q → Array Q → Except Err (Array Q × Array Q) := fun x w =>
+          (evalBatch nsys m G h 1 (ofTable x) (ofTable w)).map
+            fun FH => (tabulate FH.1, tabulate FH.2)
+        let x0t := tabulate (poolMat G.n #[x0])
+        let wl := ws.toList.map fun w => tabulate (poolMat m.nin #[w])
+        match IC.dtTraj f x0t wl with
+        | .error e => out := out ++ " tr " ++ showErr e
+        | .ok l =>
+          let la := l.toArray
+          let XS : Matrix (Fin G.n) (Fin la.size) Q :=
+            fun i j => ((la.getD j.val (#[], #[])).1).getD i.val 0
+          let YS : Matrix (Fin m.nout) (Fin la.size) Q :=
+            fun i j => ((la.getD j.val (#[], #[])).2).getD i.val 0
+          out := out ++ " tr " ++ showMat XS ++ " " ++ showMat YS
+      | _ => throw s!"eval-request:{t}"
+    pure out
+  else throw "stack-shape"
 
 def showLin (T : DSS Q) : String :=
   s!"lin {T.n} " ++ showMat T.sys.A ++ " " ++ showMat T.sys.B ++ " "
@@ -255,6 +324,8 @@ structure Node where
   sig : SysSig
   lin : DSS Q
   maps : Option (Maps Q)
+  /-- for an operator node: number of subsystems and their block-diagonal stack -/
+  inner : Option (Nat × DSS Q) := none
 
 def anonSig (m p : Nat) : SysSig :=
   ⟨"_", List.replicate m ⟨"_", none⟩, List.replicate p ⟨"_", none⟩⟩
@@ -270,7 +341,7 @@ def combine (kids : List Node) (r : Except Err (Maps Q)) : Except String (Except
       match linearSys kids.length m G with
       | .error e => .error e
       | .ok (.error e) => .ok (.error e)
-      | .ok (.ok T) => .ok (.ok ⟨anonSig m.nin m.nout, T, some m⟩)
+      | .ok (.ok T) => .ok (.ok ⟨anonSig m.nin m.nout, T, some m, some (kids.length, G)⟩)
 
 def bin (ra rb : Except Err Node) (f : Node → Node → Except String (Except Err Node)) :
     Except String (Except Err Node) :=
@@ -282,9 +353,9 @@ def bin (ra rb : Except Err Node) (f : Node → Node → Except String (Except E
 def evalOp : OpExpr → Except String (Except Err Node)
   | .leaf s =>
     match s.lin with
-    | some g => .ok (.ok ⟨s.sig, g, none⟩)
+    | some g => .ok (.ok ⟨s.sig, g, none, none⟩)
     | none => .error "leaf-not-linear"
-  | .const p m D => .ok (.ok ⟨anonSig m p, ⟨0, p, m, ⟨0, 0, 0, D⟩, .cont⟩, none⟩)
+  | .const p m D => .ok (.ok ⟨anonSig m p, ⟨0, p, m, ⟨0, 0, 0, D⟩, .cont⟩, none, none⟩)
   | .add a b => do
     bin (← evalOp a) (← evalOp b) fun x y => combine [x, y] (opAdd x.sig y.sig)
   | .sub a b => do
@@ -302,11 +373,13 @@ def runOp : P String := do
   let e ← pOpExpr
   match evalOp e with
   | .error e => throw e
-  | .ok (.error e) => pure (showErr e)
+  | .ok (.error e) => do dropRequests; pure (showErr e)
   | .ok (.ok nd) =>
-    match nd.maps with
-    | none => throw "op-leaf"
-    | some m => pure (showMaps m ++ " " ++ showLin nd.lin)
+    match nd.maps, nd.inner with
+    | some m, some (k, G) =>
+      let ev ← evalRequests k m G
+      pure (showMaps m ++ " " ++ showLin nd.lin ++ ev)
+    | _, _ => throw "op-leaf"
 
 def run : P String := do
   let syss ← pList pSys
@@ -321,7 +394,7 @@ def run : P String := do
   let sigs := syss.map (·.sig)
   let args : Args Q := ⟨sigs, conns, inNone, inl, inputs, outNone, outl, outputs, addU⟩
   match interconnect args with
-  | .error e => pure (showErr e)
+  | .error e => do dropRequests; pure (showErr e)
   | .ok m =>
     let head := showMaps m
     match syss.mapM (·.lin) with
@@ -332,8 +405,10 @@ def run : P String := do
       | .ok G =>
         match linearPart syss.length m G with
         | .error e => throw e
-        | .ok (.error e) => pure (showErr e)
-        | .ok (.ok s) => pure (head ++ " " ++ s)
+        | .ok (.error e) => do dropRequests; pure (showErr e)
+        | .ok (.ok s) =>
+          let ev ← evalRequests syss.length m G
+          pure (head ++ " " ++ s ++ ev)
 
 def handle (toks : List String) : String :=
   match toks with
